@@ -35,8 +35,8 @@ SCHED_MEASURE = "distinct (interruption kinds sequence, optimizer, scheduler) si
 ASSUMPTIONS = [
     "full-batch updates only (mini-batch order is re-seeded on load: outside the claim); raw data is "
     "saved with the object (save_raw_data=True)",
-    "relative tolerance 1e-4 on loss history, object and probe after continuing (HEAD typically "
-    "deviates <= 7e-7); a larger deviation counts only if it exceeds 20x the drift of two twins "
+    "relative tolerance 1e-5 on loss history, object and probe after continuing (HEAD typically "
+    "deviates <= 7e-7); a larger deviation counts only if it exceeds 1e-5 + 20x the drift of two twins "
     "that were perturbed by 2 ulp at the same interruption points (round-off amplified by rounded "
     "scan positions / normalised Adam steps is not a lost state); exact equality right after an "
     "interruption",
@@ -56,7 +56,7 @@ EXPECTED_PROBES = ["split_at_zero", "double_interrupt", "clone_then_save", "clon
                    "reload_dir", "opt_sgd", "opt_adam", "opt_adamw", "sched_cyclic", "sched_linear",
                    "sched_exp", "obj_potential", "obj_pure_phase", "modes2", "slices2",
                    "clone_independence_checked", "clone_fallback_natural"]
-RTOL = 1e-4
+RTOL = 1e-5   # candidate threshold; a candidate is a violation only beyond NOISE_FACTOR x measured drift
 _ctx = {}
 
 
@@ -134,7 +134,8 @@ def gen(rng: Rng, tier, i):
     cfg = {"data_seed": rng.randrange(1000), "scan": rng.pick([[6, 6], [4, 6], [5, 5]]),
            "obj_type": rng.pick(["complex", "pure_phase", "potential"]), "slices": rng.pick([1, 1, 2]),
            "modes": rng.pick([1, 1, 2]), "opt": opt_kind, "keys": keys,
-           "lr": {"object": rng.pick([5e-3, 2e-2]), "probe": rng.pick([1e-3, 5e-3]), "dataset": 1e-3},
+           "lr": {"object": rng.pick([5e-3, 2e-2]), "probe": rng.pick([1e-3, 5e-3]),
+                  "dataset": rng.pick([1e-3, 1e-2])},
            "sched": {k: _gen_sched(rng.fork(("s", k)), sched if rng.chance(0.8) else "none")
                      for k in keys},
            "constraints": rng.pick([{}, {"probe": {"orthogonalize_probe": False}},
